@@ -15,6 +15,10 @@ CRYPTO_NOTE = ("The theorems are about the RFC specification (Crypto/Spec.lean) 
    "two-direction correspondence run, not by proof. aescts and Go crypto are external. ")
 
 CLAIMED = {
+ "C02": dict(
+   text="Lean theorems over a model of service/cache.go: after any presentation of (client, timestamp, service) every later presentation is flagged whatever other presentations and clean-ups happen in between, provided no clean-up ran when the timestamp was outside its window (once, once_window, by induction over histories of any length); a replay verdict always has an earlier presentation of exactly that triple as cause (exact); n concurrent atomic presentations of one authenticator under ANY lock-acquisition order accept exactly one (concurrent_once); the unrepaired four-section code is refuted by concrete schedules. Regenerated fact (go/ast): in the current source IsReplay, AddEntry and ClearOldEntries each touch the cache inside exactly one write-locked section. Tied to Go by bounded-exhaustive and long random histories under a fake clock, every schedule of 2-3 concurrent calls at the lock-acquisition yield points (cooperative scheduler), free-running parallel stress and a real-time cleaner history.",
+   note="Go mutex semantics, the memory model and testing/synctest are trusted; the lock-shape extractor (go/ast walker in the harness) is trusted to see every access to entries/replayMap in cache.go; atomicity is proved from that fact, races are exhibited only by the schedule enumeration and stress.",
+   technique="Lean 4 proof (invariants by induction over histories; atomic-step concurrency) + regenerated lock-shape fact + deterministic schedule enumeration via a build-tag hook", design="5/C02"),
  "C05": dict(
    text="Lean theorems over the RFC 3961/3962/8009/4757 specification: decrypt(encrypt(conf,pt)) = pt (des3: plus zero padding) for all six etypes and every length (CBC and ciphertext-stealing round trips by induction over blocks), ciphertext length, different confounders give different ciphertexts, rc4 message type = LE32(alias(usage)); regenerated facts (rc4 message-type bytes for 314 usages, etype parameter table) proved equal to the RFC values by kernel evaluation. The Go code is tied to this spec by interop in both directions over lengths 0..130 x usage set.",
    note=CRYPTO_NOTE, technique="Lean 4 proof (mode round trips, injectivity) + regenerated fact tables (decide) + two-direction differential interop against kmodel", design="5/C05"),
@@ -73,7 +77,7 @@ def main():
             "enable": "go build/test -tags verif (the harness is always built with the tag)",
             "baseline_off_cmd": "cd /repo/v8 && go test -vet=off -count=1 ./...",
             "source_commits": HOOK_COMMITS,
-            "add_only": True,
+            "add_only": False,
         },
         "engines": [{
             "name": "lean4-proof+correspondence", "path": "/verif/check",
@@ -87,6 +91,6 @@ def main():
     json.dump(m, open(os.path.join(ROOT, "MANIFEST.json"), "w"), indent=1)
 
 NA = {}
-HOOK_COMMITS = []
+HOOK_COMMITS = ['41dc5d5']
 if __name__ == "__main__":
     main()
